@@ -88,3 +88,19 @@ class ReadOffLoss(BaseLoss):
 
     def compute_loss_1d(self, sim_data_ensemble, real_data):
         return float(np.mean(sim_data_ensemble))
+
+
+# coordinate filters of the loss functions (module-level: they are pickled with the loss in a checkpoint)
+def filter_demean(x):
+    return x - np.mean(x)
+
+
+def filter_tanh(x):
+    return np.tanh(x)
+
+
+def filter_smooth(x):
+    return np.convolve(x, np.ones(3) / 3.0, mode="same")
+
+
+FILTERS = {"demean": filter_demean, "tanh": filter_tanh, "smooth": filter_smooth}
